@@ -103,7 +103,19 @@ def plan_reason(world, op, plan):
         if not ok and is_abs(n[1]):
             ok = all(any(same_spot(x[0], n) and x[0][1] == m and declares(x[1], m, n[2]) for x in sent) for m in members(n[1]))
         if not ok:
-            return "plan:client-field-not-sent-to-a-service-that-declares-it"
+            # which kind of field it is (the recorded findings name their kinds: another kind is another defect)
+            path, pt, f, key = n
+            if pt == "Node" or (pt == "Query" and f == "node"):
+                kind = ""                      # the rootnode stratum has its own findings
+            elif f == "__typename":
+                kind = ":typename" + ("-aliased" if key != f else "")
+            elif world["types"].get(pt, {}).get("kind") == "INTERFACE":
+                kind = ":interface-field" + ("-aliased" if key != f else "")
+            elif any(pt in (td.get("members") or []) for td in world["types"].values() if td.get("kind") in ("INTERFACE", "UNION")):
+                kind = ":member-field"
+            else:
+                kind = ""
+            return "plan:client-field-not-sent-to-a-service-that-declares-it" + kind
     for (n, url) in sorted(sent):
         if any(same_spot(n, c) and related(n[1], c[1]) for c in client):
             continue
